@@ -162,7 +162,8 @@ check("C17", "fallback-tag referrers converted without loss, repeatably", "explo
       "rapid generator of legacy fallback-tag layouts; oracle = expected grouping by actual subject (field-exact) + repeat/restart differential + crash-point enumeration of the conversion through the vfs shim + termination watchdog",
       "Randomised search over generated legacy layouts (accurate, stale, foreign-subject, missing-blob, mixed, wrong-field and empty fallback indexes, sha256/sha512 subjects, pre-existing "
       "responses, already-converted layouts, unrelated content) opened by a writable dir store and by mem-over-dir; the conversion is repeated, and interrupted at sampled (quick) or all "
-      "(thorough) mutating file-system calls in three modes (before, after, torn write) and then repeated; every open runs under a watchdog that inspects the goroutine dump.",
+      "(thorough) mutating file-system calls in three modes (before, after, torn write) and then repeated; the same with an I/O error instead of a crash at each mutating call and at each reading call (the server lives on, is asked again, closed, and "
+      "the directory re-opened); every open runs under a watchdog that inspects the goroutine dump.",
       "Trusted: the layout generator's expectation (union of listed descriptors whose manifest exists and names the subject, recomputed from the manifests); process-crash model of the vfs shim "
       "(no loss of un-synced pages); pre-existing converted responses are generated accurate only.",
       "DESIGN.md §3 C17",
